@@ -260,8 +260,10 @@ class HistogramDensityMethod(BatchDetector):
             self.reset()
 
         X, _, _ = super()._validate_input(X, None, None)
+        # label the batch like the reference (which may have been set from an
+        # array before any dataframe was seen) so that the two can be pooled
         X = pd.DataFrame(
-            X, columns=self._input_cols
+            X, columns=self.reference.columns
         )  # TODO: subsequent operations expect dataframes, not numpy arrays
 
         super().update(X, None, None)
